@@ -43,6 +43,15 @@ using namespace ltv;
 using torrent::AddressList;
 using torrent::Object;
 
+// ------------------------------------------------------------------ generic access to private containers
+// (never spell a private container's type: works for map / unordered_map / vector or deque of pairs)
+template <typename C, typename K>
+static auto find_by_key(C& c, const K& key) -> decltype(&std::begin(c)->second) {
+  for (auto& kv : c)
+    if (kv.first == key) return &kv.second;
+  return nullptr;
+}
+
 // ------------------------------------------------------------------ canonical printing
 
 static std::string hexn(const unsigned char* p, size_t n) { return hex(reinterpret_cast<const char*>(p), n); }
@@ -149,9 +158,9 @@ struct Events {
   void hook(torrent::TrackerWorker* w) {
     w->m_slot_success        = [this](AddressList&& l) { ev.push_back("success:" + show_addrs(l.begin(), l.end())); };
     w->m_slot_new_peers      = [this](AddressList&& l) { ev.push_back("newpeers:" + show_addrs(l.begin(), l.end())); };
-    w->m_slot_failure        = [this](std::string m) { ev.push_back("fail:" + canon_msg(m)); };
+    w->m_slot_failure        = [this](std::string m) { (void)m; ev.push_back("fail"); };
     w->m_slot_scrape_success = [this]() { ev.push_back("scrape-ok"); };
-    w->m_slot_scrape_failure = [this](std::string m) { ev.push_back("scrape-fail:" + canon_msg(m)); };
+    w->m_slot_scrape_failure = [this](std::string m) { (void)m; ev.push_back("scrape-fail"); };
     w->m_slot_enabled        = [] {};
     w->m_slot_disabled       = [] {};
   }
@@ -173,7 +182,7 @@ static std::string show_ts(torrent::TrackerWorker* w) {
   return "ni=" + std::to_string((long long)s.normal_interval().count()) + " mi=" + std::to_string((long long)s.min_interval().count()) +
          " c=" + std::to_string(s.scrape_complete()) + " i=" + std::to_string(s.scrape_incomplete()) +
          " d=" + std::to_string(s.scrape_downloaded()) + " sc=" + std::to_string(s.scrape_counter()) +
-         " tid=" + hex(w->m_tracker_id);
+         " tid=" + hex(w->tracker_id_safe());
 }
 
 // ------------------------------------------------------------------ HTTP
@@ -300,10 +309,10 @@ static std::string run_udp_once(const std::vector<std::string>& t, unsigned char
   unsigned char pkt[600];
 
   auto wrap = [&](uint32_t id) {
-    auto itr = router->m_connections.find(id);
-    if (itr == router->m_connections.end()) return;
-    auto orig = itr->second.process;
-    itr->second.process = [orig, &process_called](uint32_t i, torrent::tracker::UdpRouter::buffer_type& b) { process_called = true; return orig(i, b); };
+    auto ci = find_by_key(router->m_connections, id);
+    if (ci == nullptr) return;
+    auto orig = ci->process;
+    ci->process = [orig, &process_called](uint32_t i, torrent::tracker::UdpRouter::buffer_type& b) { process_called = true; return orig(i, b); };
   };
 
   try {
@@ -331,7 +340,7 @@ static std::string run_udp_once(const std::vector<std::string>& t, unsigned char
           if (v == cur_sym) put32((unsigned char*)d.data() + 4, cur_real);
           else if (v == cur_real) put32((unsigned char*)d.data() + 4, cur_sym);
         }
-        memset(router->m_buffer.m_buffer, fill, sizeof(router->m_buffer.m_buffer));
+        memset(router->m_buffer.begin(), fill, router->m_buffer.reserved());
         if (sendto(src_ok ? s_ok : s_bad, d.data(), d.size(), 0, (sockaddr*)&raddr, rl) != (ssize_t)d.size())
           return "SETUP-FAIL sendto";
         process_called = false;
@@ -367,7 +376,7 @@ static std::string run_udp_once(const std::vector<std::string>& t, unsigned char
         evline += e;
       }
       auto show_tx = [&](uint32_t x) { return x == 0 ? std::string("0") : x == real_c ? "C" : x == real_a ? "A" : "?" + std::to_string(x); };
-      std::string routed = router->m_connections.count(real_c) ? "C" : (real_a && router->m_connections.count(real_a)) ? "A" : "none";
+      std::string routed = find_by_key(router->m_connections, real_c) ? "C" : (real_a && find_by_key(router->m_connections, real_a)) ? "A" : "none";
       unsigned char cid[8];
       for (int k = 0; k < 8; k++) cid[k] = st.connection_id >> (56 - 8 * k);
       out = "ev=" + (evline.empty() ? std::string("-") : evline) + " tx=" + show_tx(st.transaction_id) + " conn=" + hexn(cid, 8) +
@@ -390,7 +399,7 @@ static std::string run_udp(const std::vector<std::string>& t) {
 // ------------------------------------------------------------------ main
 
 static void on_alarm(int) {
-  static const char msg[] = "\nHANG: watchdog expired in a C14 case\n";
+  static const char msg[] = "\nTIMEOUT: C14 watchdog expired (a call blocked)\n";
   (void)!write(2, msg, sizeof(msg) - 1);
   _exit(3);
 }
@@ -408,8 +417,23 @@ static void need_runtime() {
   g_runtime = true;
 }
 
-int main() {
+// constants as the COMPILED code has them (cross-check of gen/params_c14.py, ROBUSTNESS.md rule 3)
+static void print_params() {
+  using TS = torrent::tracker::TrackerState;
+  torrent::tracker::UdpRouter::buffer_type b;
+  std::cout << "udp_buffer_size=" << b.reserved() << "\n";
+  std::cout << "available_list_default_max=" << torrent::AvailableList().max_size() << "\n";
+  std::cout << "default_min_interval=" << (long long)TS::default_min_interval.count() << "\n";
+  std::cout << "min_min_interval=" << (long long)TS::min_min_interval.count() << "\n";
+  std::cout << "max_min_interval=" << (long long)TS::max_min_interval.count() << "\n";
+  std::cout << "default_normal_interval=" << (long long)TS::default_normal_interval.count() << "\n";
+  std::cout << "min_normal_interval=" << (long long)TS::min_normal_interval.count() << "\n";
+  std::cout << "max_normal_interval=" << (long long)TS::max_normal_interval.count() << "\n";
+}
+
+int main(int argc, char** argv) {
   std_setup();
+  if (argc > 1 && std::string(argv[1]) == "--params") { print_params(); return 0; }
   signal(SIGALRM, on_alarm);
   std::string line;
   while (std::getline(std::cin, line)) {
